@@ -1,7 +1,9 @@
 # sourced by every script
 export VERIF_ROOT="${VERIF_ROOT:-$(cd "$(dirname "${BASH_SOURCE[0]}")/.." && pwd)}"
 export VERIF_REPO="${VERIF_REPO:-/repo}"
-export VERIF_BUILD="$VERIF_ROOT/build"
+export VERIF_BUILD="${VERIF_BUILD:-$VERIF_ROOT/build}"
+# VERIF_OUT (optional): where evidence/ and replay/ are written instead of $VERIF_ROOT (used by bin/seedtest so that runs
+# against a deliberately changed tree never overwrite the evidence of /repo itself)
 export GOPROXY=off GOSUMDB=off GOTOOLCHAIN=local CGO_ENABLED=1 GOFLAGS=
 export CARGO_NET_OFFLINE=true PIP_NO_INDEX=1
 mkdir -p "$VERIF_BUILD" "$VERIF_ROOT/evidence" "$VERIF_ROOT/replay"
